@@ -162,7 +162,8 @@ def evaluate(chk, jobs, res, prop):
                 import math
                 from .async_worker_consts import side_f, DEFAULT_F
                 for n in cfg["nodes"]:
-                    c = ep["rows"][n]
+                    c = ep["rows"].get(n)
+                    if c is None: continue          # pruned node: never runs, no record
                     for k in range(len(c["seq"])):
                         if c["seq"][k] < 0 or "winf" not in c: continue
                         for snd, fs in c["winf"][k].items():
